@@ -421,3 +421,32 @@ RULES = [
     ("C12.R10", "T3/T2", "fragments cut by a full buffer stay parseable (C09.R10); a repeat is recognised by sequence AND digest (C05.R2)", r10),
     ("C12.R11", "T7", "the IIN2 recorded when a READ is deferred is OR-ed with the IIN2 of its later selection", r11),
 ]
+
+
+def r12(ctx):
+    """'replies are ... correlated': every solicited reply (response, error reply, echo) is addressed to the sender of the request in
+    hand - the address argument derives from the popped request / the stored deferred READ / what the confirm wait handed back, never
+    from the session's configured destination (which is where UNSOLICITED responses go, and differs from the requester whenever
+    respond_to_any_master is enabled)."""
+    prog = ctx.prog
+    SRC = r"RequestGuard::get$|DeferredRead::select$|OutstationSession::wait_for_sol_confirm$|OutstationSession::expect_sol_confirm$"
+    ARG = {"write_solicited": 3, "repeat_solicited": 2, "write_error_response": 2}
+    n = 0
+    for bd in prog.bodies_matching(r"^dnp3::outstation::session::OutstationSession::"):
+        if "::tests::" in bd.path:
+            continue
+        sym = None
+        for b in call_sites(bd, r"OutstationSession::(write_solicited|repeat_solicited|write_error_response)$"):
+            sym = sym or ctx.sym(bd)
+            e = sym.call_expr(b.term)
+            fn_ = b.term.callee.split("::")[-1]
+            a = e[2][ARG[fn_]]
+            n += 1
+            fwd = a[0] in ("param", "capture") or (a[0] == "field" and a[1][0] in ("param", "capture") and a[1][1] in ("info", "respond_to"))
+            ok = (fwd or mentions_call(a, SRC)) and not mentions_field(a, "destination") and not mentions_field(a, "config")
+            ctx.check(ok, "reply-to-requester@%s:%s" % (short(bd.path).replace("::{closure#0}", "").split("::")[-1], fn_), "%s is addressed to %s" % (fn_, expr_str(a)[:70]), bd.where(b.idx), bad_detail="%s is addressed to `%s`, not to the sender of the request it answers" % (fn_, expr_str(a)[:80]))
+    if n < 10:
+        raise AnchorError("solicited reply sites: %d" % n)
+
+
+RULES.append(("C12.R12", "T8", "every solicited reply is addressed to the sender of the request it answers", r12))
